@@ -96,7 +96,8 @@ def chart_text(res=192, song=None, sync=None, events=None, tracks=None, order=No
 # its sections through those entry points (bodies indented as in the file) instead of Chart.from_file.
 _SECTIONS_OF: dict = {}
 _ENTRY = {"how": None}
-ITERABLE_KINDS = ["list", "tuple", "iterator", "generator", "islice", "map", "file-object", "deque"]
+ITERABLE_KINDS = ["list", "tuple", "iterator", "generator", "islice", "map", "file-object", "deque",
+                  "track-level:iterator", "track-level:generator", "track-level:list", "track-level:map"]
 
 
 def as_iterable(lines, how):
@@ -112,7 +113,7 @@ def as_iterable(lines, how):
     if how == "islice":
         return itertools.islice(["x"] + list(lines) + ["y"], 1, 1 + len(lines))
     if how == "map":
-        return map(str, lines)
+        return map(lambda x: x, lines)
     if how == "file-object":
         return (ln.rstrip("\n") for ln in io.StringIO("".join(ln + "\n" for ln in lines)))
     if how == "deque":
@@ -141,8 +142,23 @@ def parse_sections(sections, how):
     from chartparse.metadata import Metadata
     from chartparse.sync import SyncTrack
     body = {t: ["  " + ln for ln in b] for t, b in sections}
+    track_level = how.startswith("track-level:")
+    if track_level:
+        how = how.split(":", 1)[1]
     metadata = Metadata.from_chart_lines(as_iterable(body["Song"], how))
-    sync_track = SyncTrack.from_chart_lines(metadata.resolution, as_iterable(body["SyncTrack"], how))
+    if track_level:
+        # one level further down: the public functions of chartparse.track, lines AND parsed data handed over as iterables
+        # (the three sync recognisers are pairwise disjoint - C14 - so the order in which the kinds are named does not matter)
+        import chartparse.track as trk
+        from chartparse.sync import AnchorEvent, BPMEvent, TimeSignatureEvent
+        pd = trk.parse_data_from_chart_lines((AnchorEvent.ParsedData, TimeSignatureEvent.ParsedData, BPMEvent.ParsedData),
+                                             as_iterable(body["SyncTrack"], how))
+        bpm_events = trk.build_events_from_data(BPMEvent, as_iterable(pd[BPMEvent.ParsedData], how), metadata.resolution)
+        ts = trk.build_events_from_data(TimeSignatureEvent, as_iterable(pd[TimeSignatureEvent.ParsedData], how), bpm_events)
+        an = trk.build_events_from_data(AnchorEvent, as_iterable(pd[AnchorEvent.ParsedData], how))
+        sync_track = SyncTrack(time_signature_events=ts, bpm_events=bpm_events, anchor_events=an)
+    else:
+        sync_track = SyncTrack.from_chart_lines(metadata.resolution, as_iterable(body["SyncTrack"], how))
     global_events_track = GlobalEventsTrack.from_chart_lines(as_iterable(body["Events"], how), sync_track.bpm_events)
     tracks: dict = {}
     for t, _ in sections:
